@@ -808,7 +808,14 @@ impl BigDecimal {
         }
 
         let uint = self.int_val.magnitude();
-        let result = arithmetic::inverse::impl_inverse_uint_scale(uint, self.scale, ctx);
+
+        // the magnitude is rounded: swap the sign-dependent modes for negative values
+        let magnitude_ctx = match (self.sign(), ctx.rounding_mode()) {
+            (Sign::Minus, RoundingMode::Floor) => ctx.with_rounding_mode(RoundingMode::Ceiling),
+            (Sign::Minus, RoundingMode::Ceiling) => ctx.with_rounding_mode(RoundingMode::Floor),
+            _ => ctx.clone(),
+        };
+        let result = arithmetic::inverse::impl_inverse_uint_scale(uint, self.scale, &magnitude_ctx);
 
         // always copy sign
         result.take_with_sign(self.sign())
